@@ -186,6 +186,15 @@ def r153(ctx):
     guards = [unparse(i.test) for i in ast.walk(fn) if isinstance(i, ast.If) and any(isinstance(x, ast.Raise) for x in i.body)]
     yp = fn.args.args[0].arg
     ok = any(g in (f'not -1.0 <= {yp} <= 1.0', f'not -1 <= {yp} <= 1', f'{yp} < -1.0 or {yp} > 1.0', f'abs({yp}) > 1.0') for g in guards)
+    if not ok:
+        # decided by the interpreter: with the argument above 1 or below -1 no path of erf_inv returns normally
+        ok = True
+        for iv in (Itv(1.0, I.INF, True, False), Itv(-I.INF, -1.0, False, True)):
+            an2 = Analyser(np_, max_depth=6)
+            an2.cur = [('<module>', '<module>', '<entry>')]
+            s2 = State()
+            if an2.inline(s2, '<module>', '<module>', fn, [s2.new(iv)], {}, None):
+                ok = False
     ctx.ob('R15.3', 'erf_inv:range-guard', ok, sample=f'erf_inv guards: {guards}')
     if not ok:
         ctx.finding('R15.3', 'erf_inv:range-guard', None, fn, 'erf_inv does not refuse arguments outside [-1, 1]', module=prog.module('utils'), where='utils.erf_inv')
@@ -195,6 +204,14 @@ def r153(ctx):
     yp = f2.args.args[1].arg
     guards = [unparse(i.test) for i in ast.walk(f2) if isinstance(i, ast.If) and any(isinstance(x, ast.Raise) for x in i.body)]
     ok = any(g in (f'{yp} < 0 or {yp} > 1', f'not 0 <= {yp} <= 1', f'{yp} < 0.0 or {yp} > 1.0', f'not 0.0 <= {yp} <= 1.0') for g in guards)
+    if not ok:
+        ok = True
+        for iv in (Itv(1.0, I.INF, True, False), Itv(-I.INF, 0.0, False, True)):
+            an2 = Analyser(np_, max_depth=8)
+            s2 = an2.instantiate('DistNormalTrunc', an2.class_invariant('DistNormalTrunc'))
+            an2.cur = [('DistNormalTrunc', 'DistNormalTrunc', '<entry>')]
+            if an2.call_method(s2, 'DistNormalTrunc', 'inverse_cumulative_probability', [s2.new(iv)], {}, None):
+                ok = False
     ctx.ob('R15.3', 'DistNormalTrunc.inverse_cumulative_probability:guard', ok, sample=f'truncated-normal inverse guards: {guards}')
     if not ok:
         ctx.finding('R15.3', 'DistNormalTrunc.inverse_cumulative_probability:guard', dc, f2, 'the truncated-normal inverse cdf does not refuse probabilities outside [0, 1]',
